@@ -341,9 +341,17 @@ fn draw_req(rng: &mut Rng, focus: Focus, idx: usize, n_users: usize) -> Req {
             format!("http://{}/", rng.pick(&["_check", "_udp2", "_icmp"]))
         }
         9 => {
-            let name = (*rng.pick(&["_CHECK", "_check.x", "x_check", "_udp2x", "_Icmp", "_udp"])).to_string();
+            let name = (*rng.pick(&[
+                "_CHECK", "_Check", "_check.x", "x_check", "_udp2x", "_UDP2", "_Udp2", "_ICMP", "_Icmp", "_udp", "_check.", "_checK",
+            ]))
+            .to_string();
             dns = Some(DnsP::Error);
-            format!("{}:{}", name, port)
+            if rng.chance(1, 2) {
+                // without a port a look-alike is a CONNECT without a port: refused, not served
+                name
+            } else {
+                format!("{}:{}", name, port)
+            }
         }
         // CONNECT without a port
         10 => {
